@@ -255,9 +255,10 @@ static void drv_apply(const vop_t *op, jb_t *res)
         char k1 = fn_kind(f, 1), k2 = fn_nargs(f) > 1 ? fn_kind(f, 2) : 0;
         void *a1, *a2 = NULL;
         memset(&stray, 0, sizeof stray);
-        memcpy(&stray, obj_of(pos == 1 ? k1 : k2, a[2]), obj_size(pos == 1 ? k1 : k2));
-        a1 = pos == 1 ? (void *)&stray : obj_of(k1, a[3]);
-        if (k2) a2 = pos == 2 ? (void *)&stray : obj_of(k2, a[3]);
+        memcpy(&stray, obj_of(pos == 2 ? k2 : k1, a[2]), obj_size(pos == 2 ? k2 : k1));
+        /* pos 3: the same stray copy in both argument positions (an object "swapped with itself", say) */
+        a1 = pos != 2 ? (void *)&stray : obj_of(k1, a[3]);
+        if (k2) a2 = pos >= 2 ? (void *)&stray : obj_of(k2, a[3]);
         a_begin(0); call_fn(f, a1, a2); a_end();
         jb_puts(res, ",\"ret\":0");
         break;
@@ -351,6 +352,7 @@ static int drv_enum(vop_t *ops, int max)
             if (ko == k && y == x) continue;          /* the other argument is a different, proper object */
             ADD(15, f, pos, x, y);
         }
+        if (pos == 1 && ko == k) for (x = 1; x <= nx; x++) ADD(15, f, 3, x, x);     /* both arguments the same stray copy */
     }
     return no;
 }
